@@ -1,10 +1,10 @@
 ---------------------------- MODULE PathUtilGen ----------------------------
 (* Input machine for the collapse part of C18: a state is an absolute path as a     *)
-(* component list, grown one component at a time over {a, bb, .., c., ..x}.         *)
+(* component list, grown one component at a time over {a, bb, .., c., ..x, x..}.         *)
 EXTENDS PathUtil, Json, CSV, IOUtils, TLC
 CONSTANTS MaxComps
 VARIABLES comps
-CompChoices == { <<97>>, <<98, 98>>, DotDot, <<99, 46>>, <<46, 46, 120>> }
+CompChoices == { <<97>>, <<98, 98>>, DotDot, <<99, 46>>, <<46, 46, 120>>, <<120, 46, 46>> }
 Init == comps = <<>>
 Next == Len(comps) < MaxComps /\ \E c \in CompChoices : comps' = Append(comps, c)
 Laws == /\ \A i \in 1..Len(Collapse(comps)) : Collapse(comps)[i] # DotDot        \* no '..' survives
